@@ -146,20 +146,27 @@ fn sweep(run: &Run, name: &str, skels: &[Vec<Sk>], max: usize, unroll: usize, at
         let combos = atom_kinds.pow(atoms as u32);
         for combo in 0..combos {
           // All header-form combinations in the `atoms` sweep; uniform forms elsewhere.
+          let forms = super::cfgcheck::FOR_FORMS;
           let for_combos: Vec<usize> = if name == "atoms" {
-              (0..(1usize << fors)).collect()
+              (0..forms.pow(fors as u32)).collect()
           } else if fors == 0 {
               vec![0]
           } else {
-              vec![0, (1usize << fors) - 1]
+              // uniform header forms: all declaration, all assignment (the two-name declaration
+              // is covered by the `atoms` sweep)
+              (0..2usize).map(|f| (0..fors).map(|i| f * forms.pow(i as u32)).sum()).collect()
           };
           for for_combo in for_combos {
-            let for_choice = digits(for_combo, 2, fors);
+            let for_choice = digits(for_combo, forms, fors);
             for (is_function, prologue) in [(true, true), (false, true), (true, false), (false, false)] {
                 let choice = digits(combo, atom_kinds, atoms);
                 let case = json!({"kind": "skeleton", "sweep": name, "max_stmts": max, "index": i,
                     "function": is_function, "unroll": unroll, "atoms": choice, "prologue": prologue, "fors": for_choice});
                 let def = marker_def_for(skel, is_function, choice, prologue, for_choice.clone());
+                if super::c10::has_bare_declaration(&def.body) {
+                    // The grammar does not admit a declaration as an unbraced body.
+                    continue;
+                }
                 run.watch(&case);
                 let (violations, stats) = check_def(&def, unroll, &case, 50_000);
                 run.eval(1);
@@ -194,7 +201,7 @@ pub fn run(run: &Run) {
         "sweep `full`: every skeleton <= {full} statements (depth <= 3; braced, empty and bare \
          bodies, blocks, for) with marker atoms; sweep `deep`: braced non-empty bodies <= {deep} \
          statements; sweep `atoms`: every skeleton <= {atoms} statements with every atom drawn from \
-         {{x = k, x += k, x--, return x | assert(x)}}; each as function and template, with and without a `var x = 0;` prologue, every `for` in both header forms (`var i = 0` / assignment to an existing variable); for each \
+         {{x = k, x += k, x--, return x | assert(x), var a = x, b = a + 1}}; each as function and template, with and without a `var x = 0;` prologue, every `for` in three header forms (`var i = 0` / assignment to an existing variable / `var i = 0, j = i + 1`); for each \
          program every decision string with loops unrolled <= {unroll} times per entry, walked in \
          lock-step on the generator's syntax and on the real CFG (before and after SSA); \
          non-trivial = program with more than one path"
